@@ -97,6 +97,9 @@ func main() {
 			if u.CtxType != nil {
 				ct = " : " + u.CtxType.String()
 			}
+			if u.Natural != "" {
+				ct += "  as " + u.Natural
+			}
 			names = append(names, fmt.Sprintf("%s %s%s", s, n, ct))
 		}
 		sort.Strings(names)
